@@ -55,6 +55,9 @@ pub struct Cfg {
     pub interval_ms: u64,
     pub timeout_ms: u64,
     pub min_idle: usize,
+    /// the transport of every session reports an error from shutdown() (a vanished peer: BrokenPipe / failed
+    /// close_notify): closing such a session "fails", housekeeping must carry on regardless
+    pub shutdown_err: bool,
 }
 
 struct Live {
@@ -100,6 +103,9 @@ fn pool_scenario(cfg: Cfg, h: Vec<Op>, slot: Arc<Mutex<(Viols, String)>>) -> Sce
                 match op {
                     Op::New(with_stream) => {
                         let link = peer_link(PipeCfg::new("s2c"), PipeCfg::new("c2s"));
+                        if cfg.shutdown_err {
+                            link.peer.out.set_shutdown_mode(crate::vpipe::ShutdownMode::Err);
+                        }
                         match start_client_session(link.sess_r, link.sess_w, padding(STOP0), None, ss.len() as u64 + 1).await {
                             Ok(sess) => {
                                 // client.rs:315 — inserted at creation
@@ -592,8 +598,13 @@ pub fn run(tier: Tier) -> i32 {
         vec![(1000, 2000, 0), (1000, 2000, 1), (2000, 1000, 1), (1000, 2000, 2)]
     }
     .into_iter()
-    .map(|(i, t, m)| Cfg { interval_ms: i, timeout_ms: t, min_idle: m })
+    .map(|(i, t, m)| Cfg { interval_ms: i, timeout_ms: t, min_idle: m, shutdown_err: false })
     .collect();
+    // the same pool configurations with transports whose shutdown() errors (pool-only alphabet)
+    let mut cfgs = cfgs;
+    for (i, t, m) in [(1000u64, 2000u64, 0usize), (1000, 2000, 1)] {
+        cfgs.push(Cfg { interval_ms: i, timeout_ms: t, min_idle: m, shutdown_err: true });
+    }
     let depth = if thorough { 6 } else { 5 };
     let max_sessions = if thorough { 3 } else { 2 };
     // all maximal histories (every shorter history is a prefix of one of them and is checked step by step)
@@ -633,7 +644,10 @@ pub fn run(tier: Tier) -> i32 {
     for cfg in &cfgs {
         let cfg = *cfg;
         let h2 = hists.clone();
-        let res: Vec<(Viols, String)> = par_map(n_h, 16, move |i| {
+        // (failing-shutdown configurations: the pool-only histories)
+        let first = if cfg.shutdown_err { n_h1 } else { 0 };
+        let res: Vec<(Viols, String)> = par_map(n_h - first, 16, move |i| {
+            let i = i + first;
             let slot = Arc::new(Mutex::new((vec![], String::new())));
             let sc = pool_scenario(cfg, h2[i].clone(), slot.clone());
             let rec = run_exec(&sc, &ExecCfg::default(), &[], 0);
@@ -645,11 +659,12 @@ pub fn run(tier: Tier) -> i32 {
         });
         let mut distinct = std::collections::HashSet::new();
         for (i, (viols, trace)) in res.into_iter().enumerate() {
+            let i = i + first;
             rep.states += hists[i].len() as u64 + 1;
             rep.transitions += hists[i].len() as u64;
             rep.traces_validated += 1;
             distinct.insert(trace.clone());
-            let key = format!("{:?}|{}", (cfg.interval_ms, cfg.timeout_ms, cfg.min_idle), hist_str(&hists[i]));
+            let key = format!("{:?}|{}", (cfg.interval_ms, cfg.timeout_ms, cfg.min_idle, cfg.shutdown_err), hist_str(&hists[i]));
             rep.case(Some(&key));
             if i % 50021 == 17 {
                 rep.sample(json!({"config": {"interval_ms": cfg.interval_ms, "timeout_ms": cfg.timeout_ms, "min_idle": cfg.min_idle}, "history": hist_str(&hists[i]), "idle_count_trace": trace}));
@@ -658,7 +673,7 @@ pub fn run(tier: Tier) -> i32 {
             let mut seen = std::collections::HashSet::new();
             for (k, d) in viols {
                 if seen.insert(k.clone()) {
-                    rep.violation(&k, &format!("config (interval {} ms, timeout {} ms, min_idle {}): {d}", cfg.interval_ms, cfg.timeout_ms, cfg.min_idle), json!({"engine": "BX", "config": [cfg.interval_ms, cfg.timeout_ms, cfg.min_idle], "history": hist_str(&hists[i])}));
+                    rep.violation(&k, &format!("config (interval {} ms, timeout {} ms, min_idle {}{}): {d}", cfg.interval_ms, cfg.timeout_ms, cfg.min_idle, if cfg.shutdown_err { ", transports whose shutdown() errors" } else { "" }), json!({"engine": "BX", "config": [cfg.interval_ms, cfg.timeout_ms, cfg.min_idle], "history": hist_str(&hists[i])}));
                 }
             }
         }
